@@ -36,7 +36,6 @@ def code_tables(ctx):
     lib_codes.check_ctrl_id(ctx)
     from rules import lib_wirep, lib_wirepa
     lib_wirep.check_payload_dispatch(ctx)
-    R.floor("WIRE-PD", 6)
     lib_wirepa.check(ctx, "WIRE-PA")
     R.floor("WIRE-PA", 20)
 
